@@ -225,10 +225,10 @@ static int ct_box(size_t n, uint64_t which, FILE *o) {
     case 0: SECRET(k, 32); SECRET(m, n); r = crypto_secretbox_easy(c, m, n, np, k); RC(r); DIG(c, n + 16); break;
     case 1: crypto_secretbox_easy(c, m, n, np, k); if ((nxt() & 3) == 0) c[nxt() % (n + 16)] ^= 4; SECRET(k, 32); r = crypto_secretbox_open_easy(m2, c, n + 16, np, k); RC(r); DIG(m2, n); break;
     case 2: SECRET(k, 32); SECRET(m, n); r = crypto_secretbox_xchacha20poly1305_easy(c, m, n, np, k); RC(r); DIG(c, n + 16); break;
-    case 3: { crypto_secretstream_xchacha20poly1305_state st; unsigned char hd[24], *c2 = buf(n + 17); unsigned long long cl;
-              SECRET(k, 32); SECRET(m, n); crypto_secretstream_xchacha20poly1305_init_push(&st, hd, k); DIG(hd, 24);
-              r = crypto_secretstream_xchacha20poly1305_push(&st, c2, &cl, m, n, NULL, 0, crypto_secretstream_xchacha20poly1305_TAG_REKEY); RC(r); DIG(c2, n + 17);
-              r = crypto_secretstream_xchacha20poly1305_push(&st, c2, &cl, m, n, NULL, 0, 0); RC(r); DIG(c2, n + 17); free(c2); break; }
+    case 3: { crypto_secretstream_xchacha20poly1305_state st; unsigned char hd[24], *c2 = buf(n + 17); unsigned long long cl;   /* the header is random: digest lengths and codes only */
+              SECRET(k, 32); SECRET(m, n); crypto_secretstream_xchacha20poly1305_init_push(&st, hd, k); PUBLIC(hd, 24);
+              r = crypto_secretstream_xchacha20poly1305_push(&st, c2, &cl, m, n, NULL, 0, crypto_secretstream_xchacha20poly1305_TAG_REKEY); RC(r); PUBLIC(c2, n + 17); h = fnv_bytes(h, &cl, sizeof cl);
+              r = crypto_secretstream_xchacha20poly1305_push(&st, c2, &cl, m, n, NULL, 0, 0); RC(r); PUBLIC(c2, n + 17); h = fnv_bytes(h, &cl, sizeof cl); free(c2); break; }
     default: return -1;
     }
     emit(o, h); free(k); free(np); free(m); free(c); free(m2); return 0;
